@@ -46,7 +46,9 @@ def run_program(chk, da, prog, sources, budget=20):
     leaves = [repr(q) for q in progs.all_leaf_uses(prog)]
     feats = {"swv_reduction": any(q[0] == "swv" and q[4] is not None for q in nodes), "root_op": prog[0],
              "overlap_below": any(q[0] == "map_overlap" or (q[0] == "call" and "overlap" in q[1]) for q in nodes),
-             "shared_leaf": len(leaves) != len(set(leaves)) or any(q[0] in ("diff", "where", "roll", "map_overlap", "cum", "setitem", "where_out") for q in nodes)}
+             "shared_leaf": len(leaves) != len(set(leaves)) or any(q[0] in ("diff", "where", "roll", "map_overlap", "cum", "setitem", "where_out") for q in nodes),
+             # API calls that consume their operand several times (sharing made inside the call): da.pad
+             "api_shared_operand": any(q[0] == "call" and q[1] == "pad" for q in nodes)}
     old = signal.signal(signal.SIGALRM, _alarm)
     signal.alarm(budget)
     try:
@@ -97,6 +99,14 @@ def towers(rng):
     return p, g.sources, v
 
 
+def fam_normal_forms(chk, da):
+    """MODEL CORRESPONDENCE for the rewrite SYSTEM (coq/theories/Rewrite.v): the reified result of the real expr.simplify() is a
+    normal form of the model system, the real rewrite / sweep counts are bounded by mu, simplify_model against the real
+    result, confluence of the raw expression (harness/c08_nf.py)"""
+    import c08_nf
+    c08_nf.fam_normal_forms(chk, da)
+
+
 def replay(path):
     print(open(path).read())
 
@@ -106,7 +116,22 @@ def run(chk: Check):
     chk.rule = ("generated programs + adversarial rechunk/concat/slice towers; a program that computes from its raw (lowered-only) form "
                 "must simplify, lower and fuse without error under a watchdog, and simplify/lower/fuse/optimize applied twice must "
                 "return the same name; non-trivial = more than one node")
+    chk.rule += ("; MODEL CORRESPONDENCE (fam_normal_forms, harness/c08_nf.py): raw expression and the REAL expr.simplify() result of "
+                 "generated programs are reified (the reifier of c02_rules; unmodelled classes are opaque leaves) and Coq evaluates "
+                 "Rewrite.applicable on the real fixpoint (must be false: the real fixpoint is a normal form of the 18-rule system; "
+                 "where a model rule still applies the implementation's gate that declined it is identified by replaying the hook: "
+                 "guard-gap:<rule>:<gate>), mu raw against the number of fired real rewrites / sweeps, simplify_model raw against "
+                 "the real result, and normal_forms raw (confluence; the real result must be among them)")
+    chk.assumptions = ["fam_normal_forms: the model rules transcribe _accept_slice / Rechunk._pushdown; the gates in front of them in "
+                       "ArrayExpr._slice_pushdown / _rechunk_pushdown (another consumer of the child, no whole block culled, grid contract) "
+                       "are not part of the rules: a real fixpoint in which a model rule applies is explained by the gate (counted), "
+                       "anything else is a tie break",
+                       "fam_normal_forms: bounds (ii) and the comparison with simplify_model are made on programs whose fired simplify "
+                       "rewrites are all instances of the 18 rules (slice-into-FromArray, Transpose-through-Elemwise and "
+                       "Rechunk-through-Concatenate are not measure-decreasing and are outside the system) and whose raw expression "
+                       "has no opaque inner node"]
     chk.run_proofs()
+    fam_normal_forms(chk, da)
     import c01
     for tag, prog, sources in c01.CORPUS:
         if tag in ("F11a", "F11b", "F18", "F20"):
